@@ -17,13 +17,14 @@ func propC12() Property {
 		Explanation: "The framing parser keeps a window (buffer) into a backing array (bigBuffer) that is re-pointed and refilled by one function. R1 (no stale view): a slice loaded from the window is never used after a call that may refill/re-point it. " +
 			"R2 (no alias escapes): window-derived slices flow only into read-only sinks (bytes.Index/IndexByte, integer scan, (*bytes.Buffer).Write, copy source, the reader's destination inside the refill function, len/cap, and back into the window field); never into a return value, another heap location, a channel or bytes.NewBuffer. " +
 			"R3 (refill preserves content): where the window is re-pointed, the old content was copied into the new window first; the read destination is buffer[len:cap]; afterwards the window is extended by exactly that read's count. " +
-			"R4 (explicit-flow non-interference): the values returned by the index-finding methods and the bounds that cut a frame do not explicitly depend on how much is buffered (len/cap of the buffers, the read count); those quantities only steer when to refill.",
+			"R4 (explicit-flow non-interference): the values returned by the index-finding methods and the bounds that cut a frame do not explicitly depend on how much is buffered (len/cap of the buffers, the read count); those quantities only steer when to refill. R5: the io.Reader contract allows data together with an error (the last bytes with io.EOF); every place that gives up because the refill returned an error does so only when that same refill returned zero bytes, otherwise the delivered bytes would be dropped depending on how the stream was chunked.",
 		NotDecided: "implicit flows (loop exits depend on how much is buffered — argued by the 'refill until found' loop shape, not decided), behaviour for streams with junk between messages, termination.",
 		Rules: []RuleDef{
 			{ID: "C12-R1", Desc: "no stale buffer view across a refill", Min: 5, Run: c12R1},
 			{ID: "C12-R2", Desc: "no alias of the parse buffer escapes", Min: 5, Run: c12R2},
 			{ID: "C12-R3", Desc: "refill preserves content", Min: 3, Run: c12R3},
 			{ID: "C12-R4", Desc: "frame indices not data-dependent on read sizes", Min: 4, Run: c12R4},
+			{ID: "C12-R5", Desc: "a read error ends the search only when no bytes were read", Min: 2, Run: c12R5},
 		},
 	}
 }
@@ -413,4 +414,41 @@ func (p *Prog) paramReadOnly(fn *ssa.Function, idx int, depth int) bool {
 		return true
 	}
 	return ok(fn.Params[idx], 0)
+}
+
+func c12R5(c *Ctx) {
+	p := c.P
+	pi := getParser(p)
+	n := 0
+	for _, fn := range pi.methods {
+		if fn == pi.refill {
+			continue
+		}
+		name := FuncName(fn)
+		for _, b := range fn.Blocks {
+			r, ok := b.Instrs[len(b.Instrs)-1].(*ssa.Return)
+			if !ok {
+				continue
+			}
+			for _, res := range r.Results {
+				if !isErrorType(res.Type()) {
+					continue
+				}
+				o := p.Origin(res)
+				if !(o.Kind == "call" && o.Callee == pi.refill && o.Res == 1) {
+					continue
+				}
+				n++
+				d := p.ReachCond(b)
+				okG := d.Implies(func(a *Atom) bool {
+					return a.Rel == "==" && a.L.Kind == "call" && a.L.CallI == o.CallI && a.L.Res == 0 && a.R.IsConstInt(0)
+				})
+				c.Check(okG, name, p.InstrPos(r), "error-only-when-empty-read", "gives up on a read error only if that read returned no bytes",
+					"the search gives up on the refill's error under "+d.String()+" without requiring that the same read returned zero bytes: bytes delivered together with io.EOF are dropped, so the last message is framed or lost depending on how the stream was split into reads")
+			}
+		}
+	}
+	if n == 0 {
+		c.Violation("", "-", "no-read-error-exit", "no function of the parser propagates the refill's error")
+	}
 }
